@@ -326,6 +326,15 @@ Definition list_owner (fuel : nat) (t : table) (top : string) (q : path) (lname 
        | None => Some q
        end.
 
+(* the name of the list is not a member of the module it was imported from (it is bound there by a wildcard import that has not been
+   expanded yet): the module's own exports are spliced in instead (finding F8) *)
+Definition list_missing (t : table) (q0 : path) (lname : string) : bool :=
+  negb (String.eqb lname "__all__")
+  && match get_mod t q0 with
+     | Some stq => match lookup lname (members stq) with None => true | Some _ => false end
+     | None => false
+     end.
+
 Definition has_ref (ex : option (list item)) : bool :=
   match ex with Some l => existsb (fun it => match it with IRef _ _ => true | _ => false end) l | None => false end.
 
@@ -422,7 +431,9 @@ Fixpoint expx (fuel : nat) (top : string) (mp : path) (s : xstate) : outcome xst
                   | None => go r acc (mkX (xt s) (xseen s) true (xdropped s) (xdone s) (xpending s) (xhops s))
                   | Some None => go r acc (mkX (xt s) (xseen s) (xunsup s) (xdropped s ++ [(mp, l)]) (xdone s) (xpending s) (xhops s))
                   | Some (Some q) =>
-                      let s := mkX (xt s) (xseen s) (xunsup s) (xdropped s) (xdone s) (xpending s) (xhops s ++ hops) in
+                      let missing := match named with Some (Some q0) => list_missing (xt s) q0 lname | _ => false end in
+                      let s := mkX (xt s) (xseen s) (xunsup s) (xdropped s ++ (if missing then [(mp, l)] else [])) (xdone s) (xpending s)
+                                   (xhops s ++ hops) in
                       let after := if mem_path q (xseen s) then Done s else expx f top q s in
                       match after with
                       | Done s' =>
